@@ -3,6 +3,7 @@
 use crate::common::workers;
 use dv_core::evidence::{Report, Tier};
 use dv_core::genp::{Gen, GenCfg};
+use dv_core::pv::PV;
 use dv_core::runner::{rng_for, Stats};
 use serde_json::{json, Value as J};
 
@@ -223,8 +224,39 @@ pub fn run(tier: Tier) -> i32 {
                             let mut g = Gen::new(&mut rng, GenCfg { max_depth: 5, ..GenCfg::default() });
                             g.blind(0)
                         };
+                        // shape stress: now and then the document is buried under many container levels (up to the 127
+                        // that serde_json's own parser accepts) or sits in / next to a long array or object;
+                        // the sizes come from typical thresholds and from the numbers in deserr's sources
+                        let pv = if i % 40 == 7 {
+                            use rand::Rng;
+                            let mut sizes: Vec<usize> = vec![15, 16, 17, 31, 32, 33, 63, 64, 65, 100, 126, 127];
+                            sizes.extend(dv_core::genp::dict().ints.iter().filter(|v| **v >= 8 && **v <= 126).flat_map(|v| [*v as usize, *v as usize + 1]));
+                            let d = sizes[rng.random_range(0..sizes.len())].min(127);
+                            let maps = rng.random_range(0..3);
+                            let mut v = pv;
+                            for l in 0..d.saturating_sub(v.depth() + 1) {
+                                v = if maps == 0 || (maps == 1 && l % 2 == 0) { PV::Seq(vec![v]) } else { PV::Map(vec![("k".to_string(), v)]) };
+                            }
+                            v
+                        } else if i % 40 == 8 {
+                            use rand::Rng;
+                            let mut sizes: Vec<usize> = vec![16, 17, 32, 33, 64, 65, 128, 129, 255, 256, 257, 300, 1000, 1025, 5000];
+                            sizes.extend(dv_core::genp::dict().ints.iter().filter(|v| **v >= 8 && **v <= 5000).flat_map(|v| [*v as usize, *v as usize + 1]));
+                            let n = sizes[rng.random_range(0..sizes.len())];
+                            let long = if rng.random_range(0..2) == 0 {
+                                PV::Seq((0..n).map(|k| if k == n - 1 { pv.clone() } else { PV::Int(k as u64) }).collect())
+                            } else {
+                                PV::Map((0..n).map(|k| (format!("k{k}"), if k == n - 1 { pv.clone() } else { PV::Int(k as u64) })).collect())
+                            };
+                            if rng.random_range(0..2) == 0 { long } else { PV::Map(vec![("a".to_string(), PV::Bool(true)), ("list".to_string(), long)]) }
+                        } else {
+                            pv
+                        };
                         let Some(d) = pv.to_json() else { continue };
                         st.evaluations += 1;
+                        if i % 40 == 7 || i % 40 == 8 {
+                            st.class("random: shape stress (deep or long)");
+                        }
                         if interesting(&d) {
                             st.nontrivial(&d.to_string());
                             st.class("random: nested or boundary number");
